@@ -15,7 +15,7 @@ RULE = ('one run = one client byte string (random bytes; a grammar-valid request
         'non-trivial = the input was not an unmodified valid request; distinct = distinct event-log digests')
 PROBES = ['framing', 'random_bytes', 'mutated', 'truncated', 'edge_case', 'concatenated', 'valid', 'got_400', 'got_404',
           'got_502', 'got_200', 'got_redirect', 'gzip_response', 'no_response_waiting', 'closed_without_response',
-          'segmented']
+          'segmented', 'relay_cut_by_close']
 COMPONENTS = {
     'real': ['proxy/http/handler.py', 'proxy/http/parser/*', 'proxy/http/url.py', 'proxy/http/responses.py',
              'proxy/common/utils.py', 'proxy/http/exception/*', 'proxy/http/proxy/server.py',
@@ -245,9 +245,10 @@ def run_one(tape: Any, cfg: Dict[str, Any], forbid: FrozenSet[str] = frozenset()
         def responder(peer: Any, info: Dict[str, Any]) -> List[Any]:
             body = b'echo:' + info['start_line'][:40]
             return [('send', b'HTTP/1.1 200 OK\r\nContent-Length: %d\r\n\r\n' % len(body) + body, 'burst')]
+        origins: List[Any] = []
         for port in (80, 8080):
-            Origin(w, '10.0.0.1', port, lambda i: [('serve', responder, 10)], name='up%d' % port,
-                   mode=up_mode, cap_in=caps[0], cap_out=caps[1])
+            origins.append(Origin(w, '10.0.0.1', port, lambda i: [('serve', responder, 10)], name='up%d' % port,
+                   mode=up_mode, cap_in=caps[0], cap_out=caps[1]))
         Origin(w, '10.0.0.1', 443, lambda i: [('serve', responder, 10)], name='up443', mode=up_mode)
         script: List[Any] = [('connect',)]
         script.append(('send', data, 'cuts', cuts) if cuts else ('send', data, 'burst'))
@@ -264,7 +265,14 @@ def run_one(tape: Any, cfg: Dict[str, Any], forbid: FrozenSet[str] = frozenset()
             method = first_tok if first_tok in (b'HEAD', b'CONNECT') else b'GET'
             p = h11_parse_responses(rx, closed, [method] * 4)
             finals = [r for r in p['responses'] if not r.get('interim')]
-            if p['error']:
+            # a relay of the origin's response that the proxy cut short by closing (it had decided to reject what the client
+            # sent next) is not a response of the proxy's own making; whether relays are complete is C01/C07's question.
+            # A single valid request gets no such allowance.
+            relay_cut = bool(closed and kind != 'valid' and rx and any(
+                len(rx) < len(oc.tx) and bytes(oc.tx).startswith(rx) for o in origins for oc in o.conns))
+            if relay_cut:
+                w.probe('relay_cut_by_close')
+            elif p['error']:
                 w.fail('malformed_response', 'h11', 'h11 rejects the proxy output: %s; input=%r output=%r'
                        % (p['error'], data[:100], rx[:200]))
             elif rx and not p['responses']:
